@@ -10,6 +10,7 @@ import traceback
 
 VERIF = os.path.dirname(os.path.dirname(os.path.abspath(__file__)))
 REPO = os.environ.get("VERIF_REPO", "/repo")
+OUT = os.environ.get("VERIF_OUT", VERIF)  # where evidence/ and replays/ are written (scratch dir for mutant runs)
 
 EXIT_OK, EXIT_VIOLATION, EXIT_INCONCLUSIVE = 0, 1, 3
 
@@ -197,7 +198,7 @@ def finish(rep):
     for fid, (e, n) in sorted(known_hits.items()):
         lines.append(f"KNOWN-FINDING: property={rep.prop} {e['id']}: {e['what']} [{n} case(s) this run]")
     replay_paths = []
-    rdir = os.path.join(VERIF, "replays", rep.prop)
+    rdir = os.path.join(OUT, "replays", rep.prop)
     os.makedirs(rdir, exist_ok=True)
     for old in os.listdir(rdir):  # replay files always describe the current run only
         if old.endswith(".json"):
@@ -209,7 +210,7 @@ def finish(rep):
         if h in seen:
             continue
         seen.add(h)
-        path = os.path.join(VERIF, "replays", rep.prop, f"{h}.json")
+        path = os.path.join(rdir, f"{h}.json")
         with open(path, "w") as f:
             json.dump(v, f, indent=1, default=str)
         replay_paths.append(path)
@@ -269,8 +270,8 @@ def finish(rep):
         "wall_s": round(wall, 2),
         "violations": len(replay_paths),
     }
-    os.makedirs(os.path.join(VERIF, "evidence"), exist_ok=True)
-    with open(os.path.join(VERIF, "evidence", f"{rep.prop}.json"), "w") as f:
+    os.makedirs(os.path.join(OUT, "evidence"), exist_ok=True)
+    with open(os.path.join(OUT, "evidence", f"{rep.prop}.json"), "w") as f:
         json.dump(ev, f, indent=1, default=str)
     for l in lines:
         print(l)
